@@ -49,12 +49,22 @@ var extTable = map[string]ExtSpec{
 	"(encoding/binary.bigEndian).PutUint16": {Known: true, HavocArgs: true},
 	"hash/fnv.New64a":                       {Known: true, NonNil: true, NoPanic: true},
 	"math.Pow":                              {Known: true, Pure: true, NoPanic: true},
-	"math.Sqrt":                             {Known: true, Pure: true, NoPanic: true},
-	"regexp.Compile":                        {Known: true, Pure: true, NoPanic: true},
-	"regexp.MustCompile":                    {Known: true, Pure: true},
-	"reflect.ValueOf":                       {Known: true, Pure: true, NoPanic: true},
-	"reflect.Indirect":                      {Known: true, Pure: true, NoPanic: true},
-	"reflect.TypeOf":                        {Known: true, Pure: true, NoPanic: true},
+	// documented: no panics (In panics for a nil location only; LoadLocation yields a non-nil one when it reports no error)
+	"(time.Time).In":        {Known: true, Pure: true, NoPanic: true},
+	"(time.Time).Clock":     {Known: true, Pure: true, NoPanic: true},
+	"(time.Time).Date":      {Known: true, Pure: true, NoPanic: true},
+	"(time.Time).Weekday":   {Known: true, Pure: true, NoPanic: true},
+	"(time.Time).Unix":      {Known: true, Pure: true, NoPanic: true},
+	"(time.Weekday).String": {Known: true, Pure: true, NoPanic: true},
+	// methods of a compiled expression (non-nil: cachedRegexp returns it only without error)
+	"(*regexp.Regexp).MatchString": {Known: true, Pure: true, NoPanic: true},
+	"(*regexp.Regexp).ReplaceAll":  {Known: true, Pure: true, NoPanic: true},
+	"math.Sqrt":                    {Known: true, Pure: true, NoPanic: true},
+	"regexp.Compile":               {Known: true, Pure: true, NoPanic: true},
+	"regexp.MustCompile":           {Known: true, Pure: true},
+	"reflect.ValueOf":              {Known: true, Pure: true, NoPanic: true},
+	"reflect.Indirect":             {Known: true, Pure: true, NoPanic: true},
+	"reflect.TypeOf":               {Known: true, Pure: true, NoPanic: true},
 }
 
 var purePkgs = map[string]bool{"strings": true, "strconv": true, "unicode": true, "unicode/utf8": true, "math": true, "bytes": true, "errors": true}
@@ -123,6 +133,34 @@ func (vc *VC) execExternal(f *ssa.Function, c *ssa.CallCommon, h *Heap, reach st
 		vc.set(h, "Ghash_data", app("store", vc.get(h, "Ghash_data"), r, vc.u.strLit("")))
 		tag := vc.u.tagOf(types.NewPointer(types.Typ[types.Uint64])) // stands for *fnv.sum64a
 		return []Term{mk(vc.define("hasher", SIface, app("mk-iface", fmt.Sprint(tag), r)), SIface).withType(f.Signature.Results().At(0).Type())}
+	case "sort.Slice", "sort.Sort", "sort.Stable", "sort.SliceStable":
+		// documented semantics: sorts the slice in place - afterwards its contents are a permutation of its
+		// contents before; less is called with indices inside the slice only, and sort.Slice panics only if less
+		// does (the less closures of the module are checked panic-free under exactly that precondition)
+		if mi, ok := c.Args[0].(*ssa.MakeInterface); ok {
+			v := mi.X
+			if ct, ok := v.(*ssa.ChangeType); ok {
+				v = ct.X
+			}
+			if sl, ok := v.Type().Underlying().(*types.Slice); ok {
+				sv := vc.value(v)
+				comp, es := vc.elemComp(sl.Elem())
+				arr, off, ln := app("s.arr", sv.S), app("s.off", sv.S), app("s.len", sv.S)
+				oldRow := vc.define("sort_old", fmt.Sprintf("(Array Int %s)", es), app("select", vc.get(h, comp), arr))
+				vc.havocRow(h, comp, arr)
+				newRow := vc.define("sort_new", fmt.Sprintf("(Array Int %s)", es), app("select", vc.get(h, comp), arr))
+				perm := vc.freshName("sort_perm")
+				vc.emit(fmt.Sprintf("(declare-fun %s (Int) Int)", perm))
+				inR := func(x string) string { return and(app("<=", "0", x), app("<", x, ln)) }
+				el := vc.u.elt(es)
+				vc.emit(fmt.Sprintf("(assert (forall ((i Int)) (! (=> %s (and %s (= (select %s (+ %s i)) (select %s (+ %s (%s i)))))) :pattern ((%s i)) :pattern ((select %s (+ %s i))) :pattern ((%s %s %s i)))))",
+					inR("i"), inR("("+perm+" i)"), newRow, off, oldRow, off, perm, perm, newRow, off, el, newRow, off))
+				vc.emit(fmt.Sprintf("(assert (forall ((i Int) (j Int)) (! (=> (and %s %s (= (%s i) (%s j))) (= i j)) :pattern ((%s i) (%s j)))))", inR("i"), inR("j"), perm, perm, perm, perm))
+				// outside the slice's window the backing array is untouched
+				vc.emit(fmt.Sprintf("(assert (forall ((k Int)) (! (=> (or (< k %s) (>= k (+ %s %s))) (= (select %s k) (select %s k))) :pattern ((select %s k)))))", off, off, ln, newRow, oldRow, newRow))
+				return nil
+			}
+		}
 	case "(encoding/binary.bigEndian).Uint16":
 		// documented semantics: b[0]<<8 | b[1], panics when len(b) < 2
 		b := vc.value(c.Args[1])
